@@ -8,7 +8,7 @@ is a removing operation.
 """
 from .guards import (Cmp, CallResult, Field, check_guard, call_dominates, ok_block_after,
                      blocks_constructing, prov, op_prov, marker_matches)
-from .lib import op_local, place_local, place_fields, rvalue_places, strip_generics
+from .lib import last_seg, op_local, place_local, place_fields, rvalue_places, strip_generics
 
 EXPLANATION = (
     "Decides the structural clause of C15: every clause of the statement (argument types, "
@@ -191,9 +191,35 @@ def run(ctx):
       rel="ne", err=(IRE, "VariableCountMismatch"))
     g("R15.merge", "test_references_consistency:missing", trc, CallResult("::get", "None", arg="arg:3"),
       err=(IRE, "VariableMissing"))
+    # The per-variable tests may sit in the loop itself or in a routine the loop calls for every variable and whose
+    # failure it propagates (seed C15-6 moved them into the helper, the type test behind the helper's early returns):
+    # in a helper the test must not be bypassable with respect to the helper's returns, which check_guard decides.
+    helpers = []
+    for c in trc.calls():
+        h = F.fns.get(c.path)
+        if h is not None and h.body and h.path != trc.path and h not in helpers and \
+                check_guard(trc, CallResult(c.name(), "Break")).ok:
+            helpers.append(h)
     for fld, var in (("ty", "TypeMismatch"), ("expression", "ExpressionMismatch"), ("stack_idx", "StackIndexMismatch")):
-        g("R15.merge", "test_references_consistency:" + fld, trc,
-          Cmp("ne", ["f:" + fld, "c:next"], ["f:" + fld, "c:get"]), rel="ne", err=(IRE, var))
+        ctx.analysed(trc)
+        r, where_fn = check_guard(trc, Cmp("ne", ["f:" + fld, "c:next"], ["f:" + fld, "c:get"]), err=(IRE, var),
+                                  expect_rel="ne"), trc
+        if not r.ok and r.msg.startswith("no test of"):
+            for h in helpers:
+                n = int(h.argc or 0)
+                for i in range(1, n + 1):
+                    for j in range(1, n + 1):
+                        if i == j:
+                            continue
+                        r2 = check_guard(h, Cmp("ne", ["f:" + fld, "arg:%d" % i], ["f:" + fld, "arg:%d" % j]),
+                                         err=(IRE, var), expect_rel="ne")
+                        if not r2.msg.startswith("no test of"):
+                            if r.msg.startswith("no test of") or r2.ok:
+                                r, where_fn = r2, h
+                                ctx.analysed(h)
+        ctx.ob("R15.merge", "test_references_consistency:" + fld, r.ok,
+               r.msg if where_fn is trc else "in %s, called for every variable: %s" % (last_seg(where_fn.path), r.msg),
+               where_fn.where(r.line))
     g("R15.merge", "test_references_consistency:test_var_consistency?", trc,
       CallResult("test_var_consistency", "Break"))
     vee = F.find1(S2C + "environment::validate_environment_equality")
